@@ -49,6 +49,7 @@ ActsArith == {"bin", "bina", "bins", "ibin", "ibina", "ibins", "powi", "unary"}
 ActsBin == {"bin", "bina", "bins"}
 ActsShape == {"getitem", "setitem", "setitema", "setitems", "transpose", "reshape", "sum", "unary"}
 ActsAlias == {"getitem", "transpose", "bin", "ibin", "setitem"}
+ActsAliasS == {"getitem", "transpose", "ibins", "ibina"}      \* in-place operators with a scalar / array on views: the parent must change
 ActsGet == {"getitem"}
 ActsAll == ActsArith \cup ActsShape
 
